@@ -41,11 +41,18 @@ impl Sched {
 pub struct RtCase {
     pub unit: String,
     pub ty: String,
+    /// a value of the declared (reader) type
     pub value: TVal,
+    /// writer-side schema evolution applied to it before it goes on the wire
+    #[serde(default)]
+    pub edits: Vec<vcore::tschema::Edit>,
     pub pk: PKind,
     pub sched: Sched,
     pub linked_zc: bool,
     pub sentinel: u8,
+    /// an unknown field added to a union replaces its variant (a union carries one field)
+    #[serde(default)]
+    pub union_replace: bool,
 }
 
 impl Shrink for RtCase {
@@ -59,6 +66,24 @@ impl Shrink for RtCase {
         }
         if self.sentinel != 0 {
             out.push(RtCase { sentinel: 0, ..self.clone() });
+        }
+        for i in 0..self.edits.len() {
+            let mut e = self.edits.clone();
+            e.remove(i);
+            out.push(RtCase { edits: e, ..self.clone() });
+        }
+        for (i, e) in self.edits.iter().enumerate() {
+            use vcore::tschema::Edit;
+            let alts: Vec<Edit> = match e {
+                Edit::AddUnknown(a, b, c, v) => vcore::shrink::Shrink::candidates(v).into_iter().map(|x| Edit::AddUnknown(*a, *b, *c, x)).chain(if *a != 0 { Some(Edit::AddUnknown(0, *b, *c, v.clone())) } else { None }).collect(),
+                Edit::Retype(a, b, v) => vcore::shrink::same_type_candidates(v).into_iter().map(|x| Edit::Retype(*a, *b, x)).collect(),
+                _ => vec![],
+            };
+            for a in alts {
+                let mut es = self.edits.clone();
+                es[i] = a;
+                out.push(RtCase { edits: es, ..self.clone() });
+            }
         }
         for v in vcore::shrink::same_type_candidates(&self.value) {
             out.push(RtCase { value: v, ..self.clone() });
@@ -92,46 +117,48 @@ pub struct RtChecked {
     pub out: RtOut,
     pub expect: Expect,
     pub wire_len: usize,
+    pub wire: TVal,
 }
 
-/// Encodes `case.value` with the reference encoder, pushes it through the generated type
+/// Encodes `wire` with the reference encoder, pushes it through the generated type
 /// (decode, size, encode, decode again) and compares with the reference semantics.
 pub fn check_rt(doc: &SDoc, mt: &MsgType, entry: &Entry, case: &RtCase, keep_unknown: bool) -> Result<RtChecked, Fail> {
     let pk = case.pk;
     let kind = shape_kind(&mt.shape);
     let proto = pk.ref_proto();
-    let bytes = vcore::refthrift::encode(proto, &case.value);
-    let expect = doc.project_shape(&mt.shape, &case.value, keep_unknown);
+    let (wire, _) = doc.evolve(&mt.shape, &case.value, &case.edits, case.union_replace);
+    let bytes = vcore::refthrift::encode(proto, &wire);
+    let expect = doc.project_shape(&mt.shape, &wire, keep_unknown, keep_unknown && !mt.synthesized);
     let req = RtReq { pk, mode: case.sched.mode(), bytes: &bytes, sentinel: case.sentinel as usize, linked_zc: case.linked_zc, poll_budget: 16 * (bytes.len() + case.sentinel as usize) + 256 };
     let tag = format!("{:?}/{}{}", pk, if case.sched == Sched::Sync { "sync" } else { "async" }, if case.linked_zc { "/zc" } else { "" });
     let out = match catch(|| (entry.ops.roundtrip)(&req)) {
         Err(p) => {
             return Err(Fail::new(
                 &format!("panic:{}:{}:{}", kind, tag, vrt::total::panic_signature(&p)),
-                format!("{} {}: generated code panicked: {}\n value {:?}", mt.rust_name, tag, p, case.value),
+                format!("{} {}: generated code panicked: {}\n value {:?}", mt.rust_name, tag, p, wire),
             ))
         }
         Ok(o) => o,
     };
-    ensure!(!out.hang, &format!("hang:{}:{}", kind, tag), "{} {}: decode_async did not finish within the poll budget\n value {:?}", mt.rust_name, tag, case.value);
+    ensure!(!out.hang, &format!("hang:{}:{}", kind, tag), "{} {}: decode_async did not finish within the poll budget\n value {:?}", mt.rust_name, tag, wire);
     match &expect {
         Expect::Error(why) => {
             ensure!(
                 out.decode_err.is_some(),
                 &format!("accepted-invalid:{}:{}", kind, tag),
                 "{} {}: decode succeeded although the reference semantics demand an error ({})\n wire value {:?}\n decoded {}",
-                mt.rust_name, tag, why, case.value, out.debug
+                mt.rust_name, tag, why, wire, out.debug
             );
         }
         Expect::Value(e) => {
             if let Some(err) = &out.decode_err {
-                return Err(Fail::new(&format!("decode-error:{}:{}", kind, tag), format!("{} {}: decode failed on a well-formed message: {}\n wire value {:?}", mt.rust_name, tag, err, case.value)));
+                return Err(Fail::new(&format!("decode-error:{}:{}", kind, tag), format!("{} {}: decode failed on a well-formed message: {}\n wire value {:?}", mt.rust_name, tag, err, wire)));
             }
             ensure!(
                 out.consumed == bytes.len(),
                 &format!("consumed:{}:{}", kind, tag),
                 "{} {}: decoder consumed {} bytes, the message has {} (sentinel {})\n wire value {:?}",
-                mt.rust_name, tag, out.consumed, bytes.len(), case.sentinel, case.value
+                mt.rust_name, tag, out.consumed, bytes.len(), case.sentinel, wire
             );
             if let Some(err) = &out.encode_err {
                 return Err(Fail::new(&format!("encode-error:{}:{}", kind, tag), format!("{} {}: encode failed: {}\n decoded {}", mt.rust_name, tag, err, out.debug)));
@@ -153,7 +180,7 @@ pub fn check_rt(doc: &SDoc, mt: &MsgType, entry: &Entry, case: &RtCase, keep_unk
                 canon(&got) == canon(e),
                 &format!("value-differs:{}:{}", kind, tag),
                 "{} {}: encode(decode(m)) differs from the expected value\n wire in  {:?}\n expected {:?}\n got      {:?}\n decoded  {}",
-                mt.rust_name, tag, case.value, canon(e), canon(&got), out.debug
+                mt.rust_name, tag, wire, canon(e), canon(&got), out.debug
             );
             ensure!(
                 out.size_fresh == re.len(),
@@ -180,7 +207,7 @@ pub fn check_rt(doc: &SDoc, mt: &MsgType, entry: &Entry, case: &RtCase, keep_unk
             }
         }
     }
-    Ok(RtChecked { out, expect, wire_len: bytes.len() })
+    Ok(RtChecked { out, expect, wire_len: bytes.len(), wire })
 }
 
 pub fn as_presult<T>(r: Result<T, Fail>) -> PResult {
